@@ -55,29 +55,29 @@ type lockInfo struct {
 }
 
 type Sched struct {
-	mu      sync.Mutex
-	tasks   []*Task
-	byGoid  map[int64]*Task
-	locks   map[*simhook.Mutex]*lockInfo
-	nlocks  int
-	rng     *rand.Rand
-	seed    uint64
-	last    *Task
-	stick   float64 // probability to keep running the last task when it is runnable
-	Steps   int
-	MaxStep int
+	mu       sync.Mutex
+	tasks    []*Task
+	byGoid   map[int64]*Task
+	locks    map[*simhook.Mutex]*lockInfo
+	nlocks   int
+	rng      *rand.Rand
+	seed     uint64
+	last     *Task
+	stick    float64 // probability to keep running the last task when it is runnable
+	Steps    int
+	MaxStep  int
 	Switches int
-	swHash  uint64
-	aborted bool
+	swHash   uint64
+	aborted  bool
 	// outcome
-	Deadlock   string
-	Crashes    []string
-	Misuse     []string // unlock of unlocked mutex etc.
-	YieldProb  float64
-	Preempts   int
-	trace      []string
-	traceOn    bool
-	anon       int
+	Deadlock  string
+	Crashes   []string
+	Misuse    []string // unlock of unlocked mutex etc.
+	YieldProb float64
+	Preempts  int
+	trace     []string
+	traceOn   bool
+	anon      int
 }
 
 func NewSched(seed uint64, stick float64, yieldProb float64) *Sched {
